@@ -7,6 +7,7 @@ import (
 	"fmt"
 	"sort"
 	"strings"
+	"sync"
 )
 
 // Event is one entry of a run's history. Seq is the simulator's global event
@@ -26,9 +27,12 @@ type Log struct {
 	Keep   bool // keep full events (replay / selftest); otherwise only hash+count
 	n      int
 	h      [32]byte
+	mu     sync.Mutex
 }
 
 func (l *Log) Add(actor, op, arg, res string) int {
+	l.mu.Lock() // (sequential simulators only; a library that works in parallel may log from several goroutines)
+	defer l.mu.Unlock()
 	l.n++
 	e := Event{Seq: l.n, Actor: actor, Op: op, Arg: arg, Res: res}
 	if l.Keep {
